@@ -33,6 +33,27 @@ CLAIMED = {
     },
 }
 
+CLAIMED["C13"] = {
+    "text": "Constructor acceptance (strict and relaxed, both families), "
+            "accessor values, min/max address, covers == range inclusion, "
+            "total-order laws of Prefix / MaxLenPrefix / RouteOrigin "
+            "(antisymmetry, transitivity on all triples, Equal iff ==, "
+            "more-specific-first, hash consistency) are decided at full "
+            "width (u32/u128 addresses, all 256 lengths). SmallAsnSet "
+            "collection is decided for every multiset of 0..3 (quick) / 0..5 "
+            "(thorough) arbitrary u32 items as a length-indexed family, the "
+            "four merge iterators for every pair of valid sets of up to 3 "
+            "(union) / 2 (others) elements in quick and 5 / 3 in thorough, "
+            "against the mathematical set through one symbolic witness "
+            "element.",
+    "ref": "§3 C13",
+    "note": "Set operands are produced by assuming the representation "
+            "invariant (strictly ascending) on an arbitrary vector; the "
+            "collect harnesses show the public constructor establishes it. "
+            "Display/FromStr text forms (std::net formatting/parsing) are "
+            "outside the claim.",
+}
+
 NOT_APPLICABLE = {
 }
 
